@@ -282,25 +282,26 @@ Record pipe := mkp {
   bbuf : buf;               (* backend_buffer: backend -> client *)
   fi : rd; fe : rd; bi : rd; be : rd;
   fst_ : cstatus; bst : cstatus;
-  has_back : bool
+  has_back : bool;
+  bfin : bool               (* the client's end-of-stream was passed on: shutdown(Write) on the backend socket *)
 }.
 
 Definition pipe_new (size : nat) (has_backend : bool) : pipe :=
   mkp (with_capacity size) (with_capacity size) rd_all rd_empty rd_all rd_empty
-      CNormal (if has_backend then CNormal else CClosed) has_backend.
+      CNormal (if has_backend then CNormal else CClosed) has_backend false.
 
-Definition p_fbuf (p : pipe) (b : buf) := mkp b (bbuf p) (fi p) (fe p) (bi p) (be p) (fst_ p) (bst p) (has_back p).
-Definition p_bbuf (p : pipe) (b : buf) := mkp (fbuf p) b (fi p) (fe p) (bi p) (be p) (fst_ p) (bst p) (has_back p).
-Definition p_fi (p : pipe) (v : rd) := mkp (fbuf p) (bbuf p) v (fe p) (bi p) (be p) (fst_ p) (bst p) (has_back p).
-Definition p_fe (p : pipe) (v : rd) := mkp (fbuf p) (bbuf p) (fi p) v (bi p) (be p) (fst_ p) (bst p) (has_back p).
-Definition p_bi (p : pipe) (v : rd) := mkp (fbuf p) (bbuf p) (fi p) (fe p) v (be p) (fst_ p) (bst p) (has_back p).
-Definition p_be (p : pipe) (v : rd) := mkp (fbuf p) (bbuf p) (fi p) (fe p) (bi p) v (fst_ p) (bst p) (has_back p).
-Definition p_fst (p : pipe) (v : cstatus) := mkp (fbuf p) (bbuf p) (fi p) (fe p) (bi p) (be p) v (bst p) (has_back p).
-Definition p_bst (p : pipe) (v : cstatus) := mkp (fbuf p) (bbuf p) (fi p) (fe p) (bi p) (be p) (fst_ p) v (has_back p).
+Definition p_fbuf (p : pipe) (b : buf) := mkp b (bbuf p) (fi p) (fe p) (bi p) (be p) (fst_ p) (bst p) (has_back p) (bfin p).
+Definition p_bbuf (p : pipe) (b : buf) := mkp (fbuf p) b (fi p) (fe p) (bi p) (be p) (fst_ p) (bst p) (has_back p) (bfin p).
+Definition p_fi (p : pipe) (v : rd) := mkp (fbuf p) (bbuf p) v (fe p) (bi p) (be p) (fst_ p) (bst p) (has_back p) (bfin p).
+Definition p_fe (p : pipe) (v : rd) := mkp (fbuf p) (bbuf p) (fi p) v (bi p) (be p) (fst_ p) (bst p) (has_back p) (bfin p).
+Definition p_bi (p : pipe) (v : rd) := mkp (fbuf p) (bbuf p) (fi p) (fe p) v (be p) (fst_ p) (bst p) (has_back p) (bfin p).
+Definition p_be (p : pipe) (v : rd) := mkp (fbuf p) (bbuf p) (fi p) (fe p) (bi p) v (fst_ p) (bst p) (has_back p) (bfin p).
+Definition p_fst (p : pipe) (v : cstatus) := mkp (fbuf p) (bbuf p) (fi p) (fe p) (bi p) (be p) v (bst p) (has_back p) (bfin p).
+Definition p_bst (p : pipe) (v : cstatus) := mkp (fbuf p) (bbuf p) (fi p) (fe p) (bi p) (be p) (fst_ p) v (has_back p) (bfin p).
 
 (** [reset_readiness_for_close] *)
 Definition p_reset (p : pipe) : pipe :=
-  mkp (fbuf p) (bbuf p) rd_empty rd_empty rd_empty rd_empty (fst_ p) (bst p) (has_back p).
+  mkp (fbuf p) (bbuf p) rd_empty rd_empty rd_empty rd_empty (fst_ p) (bst p) (has_back p) (bfin p).
 
 (** [check_connections] *)
 Definition check_connections (p : pipe) : bool :=
@@ -311,7 +312,7 @@ Definition check_connections (p : pipe) : bool :=
   | CNormal, CReadOpen => true
   | CNormal, CWriteOpen => req || resp
   | CNormal, CClosed => resp
-  | CWriteOpen, CNormal => req || resp
+  | CWriteOpen, CNormal => true
   | CWriteOpen, CReadOpen => true
   | CWriteOpen, CWriteOpen => req || resp
   | CWriteOpen, CClosed => resp
@@ -323,6 +324,17 @@ Definition check_connections (p : pipe) : bool :=
   | CClosed, CReadOpen => false
   | CClosed, CWriteOpen => req
   | CClosed, CClosed => false
+  end.
+
+(** [propagate_frontend_eof]: the client has half-closed and all its bytes are
+    out: shutdown(Write) on the backend socket *)
+Definition p_propagate (p : pipe) : pipe :=
+  match fst_ p with
+  | CWriteOpen =>
+    if (avail_data (fbuf p) =? 0) && has_back p
+    then mkp (fbuf p) (bbuf p) (fi p) (fe p) (bi p) (be p) (fst_ p) (bst p) (has_back p) true
+    else p
+  | _ => p
   end.
 
 (** status transition after a 0-byte read that is not a WouldBlock *)
@@ -369,7 +381,7 @@ Definition pipe_readable (p : pipe) (s : sock) : pipe * sock * result :=
         let p2 := p_fst p1 (st_read_closed (fst_ p1)) in
         let p3 := p_fe (p_fi p2 (set_r (fi p2) false)) (set_r (fe p2) false) in
         if negb (check_connections p3) then (p_reset p3, s', Close)
-        else (p_bi p3 (set_w (bi p3) true), s', Continue)
+        else let p4 := p_propagate p3 in (p_bi p4 (set_w (bi p4) true), s', Continue)
       | SWouldBlock =>
         let p2 := p_fe p1 (set_r (fe p1) false) in
         (p_bi p2 (set_w (bi p2) true), s', Continue)
@@ -419,7 +431,7 @@ Fixpoint pipe_bw_loop (fuel : nat) (p : pipe) (s : sock) (res : sres)
     else if avail_data (fbuf p) =? 0 then
       let p' := p_bi (p_fi p (set_r (fi p) true)) (set_w (bi p) false) in
       if negb (check_connections p') then (p_reset p', s, Some Close, res)
-      else (p', s, Some Continue, res)
+      else (p_propagate p', s, Some Continue, res)
     else
       let '(s', n, r) := sock_write s (dat (fbuf p)) in
       let p1 := p_fbuf p (fst (consume (fbuf p) n)) in
@@ -505,7 +517,7 @@ Definition send_connected (x : send) : send :=
 (** [SendProxyProtocol::into_pipe] *)
 Definition send_into_pipe (x : send) (size : nat) : pipe :=
   mkp (with_capacity size) (with_capacity size)
-      (set_r (sfi x) true) (sfe x) (set_r (sbi x) true) (sbe x) CNormal CNormal true.
+      (set_r (sfi x) true) (sfe x) (set_r (sbi x) true) (sbe x) CNormal CNormal true false.
 
 (* ------------------------------------------------------------------ *)
 (** * RelayProxyProtocol *)
@@ -572,7 +584,7 @@ Definition relay_connected (x : relay) : relay :=
 (** [RelayProxyProtocol::into_pipe]: default interests, events carried over,
     the frontend buffer moves into the pipe *)
 Definition relay_into_pipe (x : relay) (size : nat) : pipe :=
-  mkp (rbuf x) (with_capacity size) rd_all (rfe x) rd_all (rbe x) CNormal CNormal true.
+  mkp (rbuf x) (with_capacity size) rd_all (rfe x) rd_all (rbe x) CNormal CNormal true false.
 
 (** [ExpectProxyProtocol::into_pipe] (+ [set_back_socket] when the backend
     connection exists): the bytes behind the header go to the frontend buffer *)
@@ -584,7 +596,7 @@ Definition expect_into_pipe (x : expect) (size : nat) (has_backend : bool) : pip
   let rest := expect_rest x in
   let n := Nat.min (length rest) (avail_space fb) in
   mkp (fst (fill_bytes fb (firstn n rest))) (with_capacity size)
-      rd_all (xev x) rd_all rd_empty CNormal (if has_backend then CNormal else CClosed) has_backend.
+      rd_all (xev x) rd_all rd_empty CNormal (if has_backend then CNormal else CClosed) has_backend false.
 
 (* ------------------------------------------------------------------ *)
 (** * The session: state sum and [TcpSession::ready_inner] *)
